@@ -1,7 +1,7 @@
 (* C19  The ordering functions are lawful orders that respect causality.
    This file contains only statements; every proof is [exact]/direct use of Proofs/*.      *)
 From Coq Require Import List ZArith Bool Lia Permutation Sorted.
-From IpfsLog Require Import Model.Order Proofs.SortProofs Proofs.OrderProofs.
+From IpfsLog Require Import Model.Order Proofs.SortProofs Proofs.OrderProofs Proofs.OrderAnyClock.
 Import ListNotations.
 Open Scope Z_scope.
 
@@ -125,6 +125,70 @@ Section C19.
   Qed.
 End C19.
 
+(* The clock type is pluggable (iface.IPFSLogLamportClock; codecs and LogOptions take prototypes):
+   SortByClocks calls the clocks' own Compare and compares the ids itself when that answers 0.  The
+   laws hold for EVERY clock type whose Compare ranks by time and, on equal times, either does not
+   decide or decides like the ids ([clock_law]) - the orderings do not lean on what the built-in
+   clock does beyond that. *)
+Section C19_any_clock.
+  Variable K : Type.
+  Variable kcmp : K -> K -> Z.
+  Hypothesis KO : KOrd K kcmp.
+  Variable cc : skey K -> skey K -> Z.          (* a.GetClock().Compare(b.GetClock()) *)
+  Hypothesis CL : clock_law K kcmp cc.
+  Notation time_ok := (time_ok K).
+  Notation hashg := (hash_g K kcmp cc).
+  Notation lwwg := (lww_g K kcmp cc).
+  Notation fwwg := (fww_g K kcmp cc).
+  Notation ltg := (ltg K).
+  Notation gtg := (gtg K).
+
+  Theorem C19_any_clock_hash_strict_total_order :
+    (forall a, time_ok a -> ~ ltg hashg a a /\ ~ gtg hashg a a) /\
+    (forall a b, time_ok a -> time_ok b -> (ltg hashg a b <-> gtg hashg b a)) /\
+    (forall a b c, time_ok a -> time_ok b -> time_ok c -> ltg hashg a b -> ltg hashg b c -> ltg hashg a c) /\
+    (forall a b, time_ok a -> time_ok b -> sk_hash a <> sk_hash b -> ltg hashg a b \/ ltg hashg b a).
+  Proof.
+    exact (conj (any_clock_hash_irreflexive K kcmp KO cc CL)
+          (conj (any_clock_hash_antisymmetric K kcmp KO cc CL)
+          (conj (any_clock_hash_transitive K kcmp KO cc CL) (any_clock_hash_total K kcmp KO cc CL)))).
+  Qed.
+
+  Theorem C19_any_clock_default_same_when_distinct a b : time_ok a -> time_ok b ->
+    (sk_time a, sk_id a) <> (sk_time b, sk_id b) ->
+    (ltg lwwg a b <-> ltg hashg a b) /\ (ltg lwwg a b <-> ~ ltg lwwg b a).
+  Proof.
+    intros Ha Hb Hne. exact (conj (any_clock_default_same_when_distinct K kcmp KO cc CL a b Ha Hb Hne)
+                                  (any_clock_default_decides_distinct K kcmp KO cc CL a b Ha Hb Hne)).
+  Qed.
+
+  Theorem C19_any_clock_respects_time a b : time_ok a -> time_ok b -> sk_time a < sk_time b ->
+    ltg hashg a b /\ ltg lwwg a b.
+  Proof. exact (any_clock_respects_time K kcmp KO cc CL a b). Qed.
+
+  Theorem C19_any_clock_fww_reverse a b : time_ok a -> time_ok b -> - two63 < cc a b < two63 ->
+    exists r, lwwg a b = COk r /\ fwwg a b = COk (- r).
+  Proof. exact (any_clock_fww_reverse K kcmp KO cc a b). Qed.
+End C19_any_clock.
+
+(* the assumption is met by the built-in clock - for which the generic definitions are the model of
+   sorting.go itself - and by a clock that compares times alone *)
+Theorem C19_builtin_clock_is_an_instance K kcmp : KOrd K kcmp ->
+  clock_law K kcmp (builtin_cc K kcmp) /\
+  (forall a b, hash_g K kcmp (builtin_cc K kcmp) a b = sort_by_entry_hash K kcmp a b) /\
+  (forall a b, lww_g K kcmp (builtin_cc K kcmp) a b = last_write_wins K kcmp a b).
+Proof. intros KO. exact (conj (builtin_clock_law K kcmp KO) (conj (hash_g_builtin K kcmp) (lww_g_builtin K kcmp))). Qed.
+
+Theorem C19_time_only_clock_is_an_instance K kcmp : clock_law K kcmp time_only_cc.
+Proof. exact (time_only_clock_law K kcmp). Qed.
+
+Example C19_any_clock_nonvacuous :
+  (* same time, different ids: the time-only clock answers 0 and the orderings go on to the ids *)
+  let a := Build_skey 3 1%N 10%N in let b := Build_skey 3 2%N 9%N in
+  time_only_cc a b = 0 /\ lww_g N ncmp time_only_cc a b = COk (-1) /\ lww_g N ncmp time_only_cc b a = COk 1 /\
+  hash_g N ncmp time_only_cc a b = COk (-1) /\ fww_g N ncmp time_only_cc a b = COk 1.
+Proof. cbv. repeat split. Qed.
+
 (* The laws assumed of the id/hash comparison hold for the two instances in use:
    natural-number ranks (used when the model is executed) and raw byte strings (bytes.Compare). *)
 Theorem C19_ranks_are_ordered : KOrd N ncmp.
@@ -161,3 +225,10 @@ Print Assumptions C19_sort_sorted_deterministic.
 Print Assumptions C19_ranks_are_ordered.
 Print Assumptions C19_bytes_are_ordered.
 Print Assumptions C19_extreme_times_ordered.
+Print Assumptions C19_any_clock_hash_strict_total_order.
+Print Assumptions C19_any_clock_default_same_when_distinct.
+Print Assumptions C19_any_clock_respects_time.
+Print Assumptions C19_any_clock_fww_reverse.
+Print Assumptions C19_builtin_clock_is_an_instance.
+Print Assumptions C19_time_only_clock_is_an_instance.
+Print Assumptions C19_any_clock_nonvacuous.
